@@ -187,7 +187,12 @@ func parseObs(input string) string {
 			a, b := e.VerifItemRange()
 			api := e.ToAPI()
 			_ = e.Error()
-			_ = e.ToProto()
+			// REST (ToAPI) and gRPC (ToProto) must report the same message and the same positions
+			if pe := e.ToProto(); pe == nil || pe.Start == nil || pe.End == nil || pe.Message != api.Message ||
+				int(pe.Start.Line) != api.Start.Line || int(pe.Start.Column) != api.Start.Col ||
+				int(pe.End.Line) != api.End.Line || int(pe.End.Column) != api.End.Col {
+				bad = " BADPOS"
+			}
 			es = append(es, fmt.Sprintf("%d %d %d:%d-%d:%d", a, b, api.Start.Line, api.Start.Col, api.End.Line, api.End.Col))
 			if !(1 <= api.Start.Line && api.Start.Line <= api.End.Line && api.End.Line <= lines+1) {
 				bad = " BADPOS"
